@@ -168,6 +168,7 @@ struct plan
   int want_log;
   int extra_fds;
   int untraced_stderr;   /* write(2, ...) is not trapped (verbose runs make millions of them) */
+  int deny_outside;      /* mutating calls on paths outside the sandbox's own directory fail with EACCES (and are recorded) */
   struct fault faults[MAXF]; int nfaults;
 };
 
@@ -251,6 +252,7 @@ static int plan_read(struct plan *p, FILE *in)
       else if (!strcmp(line, "log")) p->want_log = atoi(rest);
       else if (!strcmp(line, "extra_fds")) p->extra_fds = atoi(rest);
       else if (!strcmp(line, "untraced_stderr")) p->untraced_stderr = atoi(rest);
+      else if (!strcmp(line, "deny_outside")) p->deny_outside = atoi(rest);
       else if (!strcmp(line, "limit"))
 	{
 	  char what[32]; long v;
@@ -522,6 +524,16 @@ static int is_tmpf_path(const char *abs)
   return !strncmp(abs, "/tmp/tmpf", 9) && strlen(abs) == 15;
 }
 
+/* Is this path outside the directory that holds the sandbox (root and what lies beside it)?  Such a path belongs
+   to the machine the simulation runs on; with deny_outside a mutating call on it is refused, not performed. */
+static int beyond_sandbox(const char *abs)
+{
+  char tmp[4200];
+  const char *rel;
+  if (in_root(abs, &rel) || is_tmpf_path(abs)) return 0;
+  return display_outside(abs, tmp, sizeof tmp) == abs;
+}
+
 static void target_name(const struct fdent *e, char *outp, size_t cap)
 {
   switch (e->kind)
@@ -754,6 +766,13 @@ static void handle_entry(pid_t pid, struct sysctx *c)
 	const char *rel;
 	int tmpf = ((fl & O_TMPFILE) == O_TMPFILE) || is_tmpf_path(c->path);
 	int sandbox = in_root(c->path, &rel);
+	if (P.deny_outside && !tmpf && (fl & (O_CREAT | O_TRUNC | O_WRONLY | O_RDWR)) && beyond_sandbox(c->path)
+	    && strncmp(c->path, "/dev/", 5) && strncmp(c->path, "/proc/", 6))
+	  {
+	    do_skip(pid, c, -EACCES);
+	    c->injected = 0;
+	    break;
+	  }
 	if (tmpf || sandbox)
 	  for (int i = 0; i < P.nfaults; ++i)
 	    {
@@ -767,6 +786,34 @@ static void handle_entry(pid_t pid, struct sysctx *c)
 	      do_skip(pid, c, -f->err);
 	      break;
 	    }
+	break;
+      }
+    case SYS_unlink: case SYS_rmdir: case SYS_mkdir: case SYS_truncate: case SYS_chmod: case SYS_chown: case SYS_lchown:
+    case SYS_mknod: case SYS_rename: case SYS_link: case SYS_symlink:
+    case SYS_unlinkat: case SYS_mkdirat: case SYS_fchmodat: case SYS_fchownat: case SYS_mknodat:
+    case SYS_renameat: case SYS_renameat2: case SYS_linkat: case SYS_symlinkat: case SYS_utimensat:
+      {
+	if (!P.deny_outside) break;
+	/* (dirfd, path address) pairs this call would change */
+	int dfd[2] = { AT_FDCWD, AT_FDCWD }; unsigned long pa[2] = { 0, 0 }; int np = 1;
+	switch (nr)
+	  {
+	  case SYS_rename: pa[0] = r->rdi; pa[1] = r->rsi; np = 2; break;
+	  case SYS_link: case SYS_symlink: pa[0] = r->rsi; break;
+	  case SYS_renameat: case SYS_renameat2: dfd[0] = (int)r->rdi; pa[0] = r->rsi; dfd[1] = (int)r->rdx; pa[1] = r->r10; np = 2; break;
+	  case SYS_linkat: dfd[0] = (int)r->rdx; pa[0] = r->r10; break;
+	  case SYS_symlinkat: dfd[0] = (int)r->rsi; pa[0] = r->rdx; break;
+	  case SYS_unlinkat: case SYS_mkdirat: case SYS_fchmodat: case SYS_fchownat: case SYS_mknodat: case SYS_utimensat:
+	    dfd[0] = (int)r->rdi; pa[0] = r->rsi; break;
+	  default: pa[0] = r->rdi; break;
+	  }
+	for (int k = 0; k < np; ++k)
+	  {
+	    char arg[4096], abs[4096];
+	    if (!pa[k] || read_str(pid, pa[k], arg, sizeof arg)) continue;
+	    resolve_path(dfd[k] == AT_FDCWD ? -1 : dfd[k], arg, abs, sizeof abs);
+	    if (beyond_sandbox(abs)) { do_skip(pid, c, -EACCES); c->injected = 0; break; }
+	  }
 	break;
       }
     case SYS_getrandom:
